@@ -23,4 +23,4 @@ require (
 	gonum.org/v1/gonum v0.15.1 // indirect
 )
 
-replace github.com/sarchlab/mgpusim/v4 => /work/C13/repo
+replace github.com/sarchlab/mgpusim/v4 => /repo
